@@ -14,7 +14,8 @@ SPEC = dict(
          "brick=Geo::Box, smooth height map) from VERIF_SEED, query points with every coordinate away from 0; "
          "mode 'degenerate': named witnesses (centre, axes, symmetry planes inside/outside the evolute, on-surface, "
          "coincident radii, spheroids on axis / in the equatorial plane, parallel / nearly parallel / tangent rays, torus centre "
-         "circle, box ties) x n/200 random parameter sets with randomly permuted ellipsoid axes; "
+         "circle, box ties, objects resized through their setters = class after_setter) x n/200 random parameter sets with "
+         "randomly permuted ellipsoid axes; "
          "distinct = distinct input records",
     partial="(i) PROVED about the executed model: value/gradient/Hessian (jets) for half space, sphere, cylinder, ellipsoid, "
             "torus; nearest point on the surface and nearest for half space, sphere, cylinder, box, ellipsoid (given the root "
